@@ -12,12 +12,15 @@ RULE = ("(a) scripted in-process runs of the real FileLogger.router() (verif ini
         "syscall-ordered trace of creates/writes/completed gzip members/fsyncs/closes/links/unlinks and FINs is compared with the model's trace and "
         "judged by the property monitor; every run also yields a computeFilenameFormat case; a run is non-trivial when at least one message was "
         "delivered; runs whose clock readings around an event straddle a rotation threshold are dropped (counted). "
+        "(c) 40 evaluations of the real strftime() (UTC; generated formats over all 16 conversions, punctuation, lone/unknown %, a few alphanumeric literals = outside the modelled class; "
+        "times 1970-2100 and boundary instants) against coq/model/Strftime.v. "
         "(b) black-box: real nsqd + real nsq_to_file binary, 60-300 messages, SIGTERM / SIGHUP+SIGTERM / SIGKILL at a generated instant, "
         "then messages the channel no longer owes (published minus a drain) must be lines of decompressible file contents and pre-existing files keep their bytes.")
 TRUSTED = [
     "modelled, not verified: the OS file model of coq/model/FileOS.v (write = volatile, fsync = durable incl. the name, a crash keeps durable + a prefix of volatile, O_EXCL and link(2) exclusive, directory operations atomic and ordered); compress/gzip (a member is decompressible exactly when complete); go-nsq (delivery of FIN, IsStarved, Stop -> StopChan); Go select/ticker",
     "hook /repo/apps/nsq_to_file/verif_driver.go (build tag verif): init() driver that injects scripted events into a real FileLogger's router() and records FIN/REQ through a recording MessageDelegate",
     "strace (syscall order and arguments) and the projection harness/cmd/filedrive/strace.go (fd tracking, gzip member boundaries via compress/gzip)",
+    "coq/model/Strftime.v covers formats whose literal characters are not alphanumeric (time.Format would interpret letters/digits of the user's format as layout tokens); the run cases use the observed rendering, so the theorems hold for any rendering function",
     "model simplifications: body and newline are one write; write/fsync/close/mkdir errors other than 'file already closed' are not modelled; <REV> assumed in the base name; one clock reading per event",
 ]
 ASSUMPTIONS = [
